@@ -91,7 +91,7 @@ def run(ctx):
             bad.append("writes")
         if bad:
             fam = family(case, mn, py_r, py_w, den_r, den_w)
-            ctx.report(["py", fam, mn], f"{mn} ({case[0]}): the IL's {'/'.join(bad)} differ from what the rendered operands denote",
+            ctx.report(["py", fam] if fam == "instruction_overwrites_BP_PX_PY_it_addresses_with" else ["py", fam, mn], f"{mn} ({case[0]}): the IL's {'/'.join(bad)} differ from what the rendered operands denote",
                        {"case": "exec_py " + l, "il_reads": py_r[:40], "il_writes": py_w[:40], "denoted_reads": den_r[:40], "denoted_writes": den_w[:40]})
     ctx.extra["disagreements"]["access_log"] = dis
     ctx.samples = [{"case": lines[0][:200], "python": outs["py"][0][:200], "denotation": outs["den"][0][:200]}]
